@@ -72,6 +72,19 @@ func namespaceConfig() *models.Namespace {
 		{DB: dbMycat, Table: "t_ml", Type: models.ShardMycatLong, Key: "id", Locations: []int{2, 2}, Slices: both, Databases: []string{"db_m_[0-3]"},
 			PartitionCount: "4", PartitionLength: "256"},
 		{DB: dbShard, Table: "t_month", Type: models.ShardMonth, Key: "d", Slices: both, DateRange: []string{"202001-202003", "202004-202006"}},
+		{DB: dbShard, Table: "t_year", Type: models.ShardYear, Key: "d", Slices: both, DateRange: []string{"2016-2017", "2018-2020"}},
+		{DB: dbShard, Table: "t_day", Type: models.ShardDay, Key: "d", Slices: both, DateRange: []string{"20200101-20200105", "20200106-20200110"}},
+		{DB: dbShard, Table: "t_hash2", Type: models.ShardHash, Key: "id", Locations: []int{3, 5}, Slices: both},
+		{DB: dbMycat, Table: "t_mur1", Type: models.ShardMycatMURMUR, Key: "id", Locations: []int{2, 2}, Slices: both, Databases: []string{"db_m_[0-3]"},
+			Seed: "0", VirtualBucketTimes: "160"},
+		{DB: dbMycat, Table: "t_mur2", Type: models.ShardMycatMURMUR, Key: "id", Locations: []int{2, 2}, Slices: both, Databases: []string{"db_m_[0-3]"},
+			Seed: "7", VirtualBucketTimes: "16"},
+		{DB: dbMycat, Table: "t_mur3", Type: models.ShardMycatMURMUR, Key: "name", Locations: []int{1, 1}, Slices: both, Databases: []string{"db_m_[0-1]"},
+			Seed: "-3", VirtualBucketTimes: "40"},
+		{DB: dbMycat, Table: "t_str", Type: models.ShardMycatString, Key: "name", Locations: []int{2, 2}, Slices: both, Databases: []string{"db_m_[0-3]"},
+			PartitionCount: "4", PartitionLength: "256", HashSlice: "0:4"},
+		{DB: dbMycat, Table: "t_pad", Type: models.ShardMycatPaddingMod, Key: "id", Locations: []int{2, 2}, Slices: both, Databases: []string{"db_m_[0-3]"},
+			PadFrom: "0", PadLength: "18", ModBegin: "10", ModEnd: "16"},
 	}
 	return ns
 }
@@ -259,7 +272,7 @@ func snapshot(rt *router.Router) string {
 			}
 		}
 		if r.GetType() != router.DefaultRuleType && r.GetType() != router.GlobalTableRuleType {
-			for _, k := range []interface{}{0, 1, 5, 99, 100, 257, 1023, "20200215", "2020-05-31"} {
+			for _, k := range []interface{}{0, 1, 5, 99, 100, 257, 1023, 123456789, "abcd", "zz top", "20200215", "2020-05-31", "2018-07-01", "2020-01-07"} {
 				res := Catch(func() string {
 					i, err := r.FindTableIndex(k)
 					if err != nil {
@@ -325,7 +338,8 @@ type runResult struct {
 }
 
 // runWorkload
-//  1. plans every statement alone, each on a router of its own that nothing else has used;
+//  1. plans every statement alone, one at a time, on a router no session uses, and requires
+//     that router's routing table to be unchanged afterwards;
 //  2. snapshots the routing table of the shared router, then lets all sessions plan at
 //     once behind a start barrier and compares each plan with (1);
 //  3. plans every statement alone again on the shared router and compares with (1):
@@ -338,6 +352,14 @@ func runWorkload(c workload) runResult {
 		out.Err = err.Error()
 		return out
 	}
+	// (1) on a router of its own; building one costs milliseconds (murmur rings), so the
+	// statements of a workload share it and its routing table must come out unchanged
+	pe, err := newEnv()
+	if err != nil {
+		out.Err = err.Error()
+		return out
+	}
+	pristine := snapshot(pe.router)
 	solo := make([][]string, len(c.Sessions))
 	cache := map[op]string{}
 	for g, ops := range c.Sessions {
@@ -347,14 +369,13 @@ func runWorkload(c workload) runResult {
 				solo[g][j] = r
 				continue
 			}
-			pe, err := newEnv()
-			if err != nil {
-				out.Err = err.Error()
-				return out
-			}
 			solo[g][j] = planOne(pe, o)
 			cache[o] = solo[g][j]
 		}
+	}
+	if after := snapshot(pe.router); after != pristine {
+		out.TableDiff = "(while planning the statements one at a time)\n" + firstDiff(pristine, after)
+		return out
 	}
 	before := snapshot(e.router)
 	reps := c.Reps
